@@ -85,9 +85,13 @@ CLAIMED = {
             "Kernel-checked: the LRU never exceeds max_size, returns only the latest value stored under the key, retains recently used keys; DiskCache.get is total, "
             "deserialises only authenticated bytes, treats every other state (bit flip, truncation, type change, missing slot, torn write, stale tag) as a miss and evicts; "
             "no forgery under MAC assumptions; the repaired key is injective in definition/class/outputs/targets/arguments; cached execution equals uncached execution under "
-            "CacheSound and never re-invokes on a hit. Tie: programs with cacheable subsets x {unbounded, LRU 1-4, disk} x run sequences across both runners vs uncached "
+            "CacheSound and never re-invokes on a hit; lifted to whole sync runs and to SEQUENCES of runs sharing one cache of any capacity (cached_run_transparent, "
+            "cached_runs_sequence_transparent, cached_run_no_extra_calls: same status, values, error, pause, routing; calls a sublist of the uncached ones; the final cache "
+            "sound again), the None-decision corner isolated by none_decision_run_witness and cached_run_transparent_partial. Tie: programs with cacheable subsets x {unbounded, LRU 1-4, disk} x run sequences across both runners vs uncached "
             "runs; recorded get/set logs replayed through the LRU model; disk scenarios with a pickle.loads spy vs the disk model.",
-            BASE_NOTE + "SHA-256 collision freedom, HMAC unforgeability, pickle and diskcache are assumptions. Known finding C09-F1 (pickle memo makes keys identity-sensitive).", "DESIGN.md §7 C09"),
+            BASE_NOTE + "SHA-256 collision freedom, HMAC unforgeability, pickle and diskcache are assumptions; the whole-run theorems cover function / if-else / route nodes (a cacheable "
+            "interrupt reads the run state and is covered by the correspondence only) and the sync runner. Known finding C09-F1 (pickle memo makes keys identity-sensitive); "
+            "seven defects repaired (key over renamed names, gate fallback, name tables of the bytecode hash, non-ASCII signature, emit sentinel identity, cached interrupts, shared outputs).", "DESIGN.md §7 C09"),
     "C12": ("proof", "Lean 4 proof: runs generate a span-tree grammar; grammar implies flat well-nestedness; per-span orderings survive interleaving + correspondence with a span-tree oracle",
             "Kernel-checked for every program, runner, completion order and nesting depth: the event log of a terminated run is a trace of the span-tree grammar (RunStart first, "
             "RunEnd last with the observed status, every NodeStart closed once, children inside parents, nested runs parented to the launching node, route decisions inside "
